@@ -83,6 +83,7 @@ Fixpoint py_eq (a b : pval) {struct a} : bool :=
   match a, b with
   | PInt x, PInt y | PInt x, PNat y | PNat x, PInt y | PNat x, PNat y => (x =? y)%Z
   | PStr x, PStr y => bytes_eqb x y
+  | PBytes x, PBytes y => bytes_eqb x y
   | PBool x, PBool y => Bool.eqb x y
   | PUnit, PUnit => true
   | PPair a1 a2, PPair b1 b2 => py_eq a1 b1 && py_eq a2 b2
@@ -105,6 +106,7 @@ Fixpoint py_lt (a b : pval) {struct a} : bool :=
   match a, b with
   | PInt x, PInt y | PInt x, PNat y | PNat x, PInt y | PNat x, PNat y => (x <? y)%Z
   | PStr x, PStr y => bytes_ltb x y
+  | PBytes x, PBytes y => bytes_ltb x y
   | PBool x, PBool y => negb x && y
   | PPair a1 a2, PPair b1 b2 =>
       if py_eq a1 b1 then (if py_eq a2 b2 then false else py_lt a2 b2) else py_lt a1 b1
@@ -130,17 +132,42 @@ Definition py_zcmp (i : instr) (z : Z) : bool :=
   | _ => (z >=? 0)%Z
   end.
 
-Definition py_bool2 (op : bool -> bool -> bool) (a b : pval) : pres :=
+(* boolean.py: dispatch on (bool, bool) / (nat, nat) [AND also (nat, int) and (int, nat)], result through from_value *)
+Definition py_logic (bop : bool -> bool -> bool) (zop : Z -> Z -> Z) (mixed : bool) (a b : pval) : pres :=
   match a, b with
-  | PBool x, PBool y => POk [PBool (op x y)]
+  | PBool x, PBool y => POk [PBool (bop x y)]
+  | PNat x, PNat y => match nat_from (zop x y) with Some v => POk [v] | None => PErr end
+  | PNat x, PInt y | PInt x, PNat y =>
+      if mixed then match nat_from (zop x y) with Some v => POk [v] | None => PErr end else PErr
   | _, _ => PErr
   end.
+
+(* execute_shift: both operands nat, assert int(b) < 257 *)
+Definition py_shift (op : Z -> Z -> Z) (a b : pval) : pres :=
+  match a, b with
+  | PNat x, PNat y => if (y <? 257)%Z then match nat_from (op x y) with Some v => POk [v] | None => PErr end else PErr
+  | _, _ => PErr
+  end.
+
+(* SLICE: start, stop = offset, offset + length; if start < len(s) and stop <= len(s): Some s[start:stop] else None *)
+Definition py_slice (o l : Z) (x : bytes) : option bytes :=
+  if (o <? Z.of_nat (length x))%Z && (o + l <=? Z.of_nat (length x))%Z
+  then Some (firstn (Z.to_nat (o + l) - Z.to_nat o) (skipn (Z.to_nat o) x))
+  else None.
 
 (* ''.join(map(str, a)) for a list whose class says "list string" *)
 Fixpoint py_join (l : list pval) : option bytes :=
   match l with
   | [] => Some []
   | PStr s :: r => option_map (fun t => s ++ t) (py_join r)
+  | _ => None
+  end.
+
+(* b''.join(map(bytes, a)) *)
+Fixpoint py_join_bytes (l : list pval) : option bytes :=
+  match l with
+  | [] => Some []
+  | PBytes s :: r => option_map (fun t => s ++ t) (py_join_bytes r)
   | _ => None
   end.
 
@@ -163,7 +190,7 @@ Definition py_simple (i : instr) : option (nat * (list pval -> pres)) :=
                                 | _ => PErr
                                 end)
   | I_SIZE => Some (1, fun a => match a with
-                                | [PStr s] => POk [PNat (Z.of_nat (length s))]
+                                | [PStr s] | [PBytes s] => POk [PNat (Z.of_nat (length s))]
                                 | [PList _ l] => POk [PNat (Z.of_nat (length l))]
                                 | _ => PErr
                                 end)
@@ -192,10 +219,23 @@ Definition py_simple (i : instr) : option (nat * (list pval -> pres)) :=
                                    end)
   | I_EQ | I_NEQ | I_LT | I_GT | I_LE | I_GE =>
       Some (1, fun a => match a with [PInt z] => POk [PBool (py_zcmp i z)] | _ => PErr end)
-  | I_AND => Some (2, fun a => match a with [x; y] => py_bool2 andb x y | _ => PErr end)
-  | I_OR => Some (2, fun a => match a with [x; y] => py_bool2 orb x y | _ => PErr end)
-  | I_XOR => Some (2, fun a => match a with [x; y] => py_bool2 xorb x y | _ => PErr end)
-  | I_NOT => Some (1, fun a => match a with [PBool x] => POk [PBool (negb x)] | _ => PErr end)
+  | I_AND => Some (2, fun a => match a with [x; y] => py_logic andb Z.land true x y | _ => PErr end)
+  | I_OR => Some (2, fun a => match a with [x; y] => py_logic orb Z.lor false x y | _ => PErr end)
+  | I_XOR => Some (2, fun a => match a with [x; y] => py_logic xorb Z.lxor false x y | _ => PErr end)
+  | I_NOT => Some (1, fun a => match a with
+                               | [PBool x] => POk [PBool (negb x)]
+                               | [PNat z] | [PInt z] => POk [PInt (Z.lnot z)]     (* ~int(x) *)
+                               | _ => PErr
+                               end)
+  | I_LSL => Some (2, fun a => match a with [x; y] => py_shift Z.shiftl x y | _ => PErr end)
+  | I_LSR => Some (2, fun a => match a with [x; y] => py_shift Z.shiftr x y | _ => PErr end)
+  | I_SLICE => Some (3, fun a => match a with
+                                 | [PNat o; PNat l; PStr x] =>
+                                     POk [match py_slice o l x with Some y => PSome (PStr y) | None => PNone TString end]
+                                 | [PNat o; PNat l; PBytes x] =>
+                                     POk [match py_slice o l x with Some y => PSome (PBytes y) | None => PNone TBytes end]
+                                 | _ => PErr
+                                 end)
   | I_FAILWITH => Some (1, fun a => match a with [x] => PFail x | _ => PErr end)
   | _ => None
   end.
@@ -384,9 +424,19 @@ Fixpoint py_eval (fuel : nat) (i : instr) (st : pstack) {struct fuel} : poutcome
               | Some (PStr b, st2) => PDone (push (PStr (a ++ b)) st2)
               | _ => PError
               end
+          | Some (PBytes a, st1) =>
+              match pop1 st1 with
+              | Some (PBytes b, st2) => PDone (push (PBytes (a ++ b)) st2)
+              | _ => PError
+              end
           | Some (PList TString l, st1) =>
               match py_join l with
               | Some s => PDone (push (PStr s) st1)
+              | None => PError
+              end
+          | Some (PList TBytes l, st1) =>
+              match py_join_bytes l with
+              | Some s => PDone (push (PBytes s) st1)
               | None => PError
               end
           | _ => PError
